@@ -180,7 +180,7 @@ fn bounded_shapes(at: (i32, i32), tier: Tier) -> Vec<(Shape, (u32, u32))> {
 
 fn bounded_cases(tier: Tier) -> Vec<BoundedCase> {
     let mut v = vec![];
-    for tb in [(0, 0, 8u32, 6u32), (-3, 2, 7, 5)] {
+    for tb in [(0, 0, 8u32, 6u32), (-3, 2, 7, 5), (19, 23, 8, 6)] {
         let offs = [(-2, 1), (1, -2), (tb.2 as i32 - 2, 1), (1, tb.3 as i32 - 1), (-2, -2), (0, 0), (tb.2 as i32 - 1, tb.3 as i32 - 1), (-20, 0)];
         for o in offs {
             let at = (tb.0 + o.0, tb.1 + o.1);
@@ -299,7 +299,7 @@ fn run_part(run: &mut Run) {
             let fonts: Vec<usize> = if t { (0..FONTS.len()).step_by(7).collect() } else { vec![font_index("ascii::FONT_4X6"), font_index("iso_8859_1::FONT_6X10"), font_index("jis_x0201::FONT_10X20")] };
             run.sweep_vec("text-rgb565", "fonts x 11 strings x 16 colour/decoration combinations x 4 baselines x 3 alignments x line heights",
                 || text_catalogue(&fonts, &CATALOGUE_STRINGS, &[(1, 100), (0, 7)], (-3, 5)), check_text::<Rgb565>);
-            run.sweep_vec("bounded-target", "images (7 widths, 4 sizes, sub-images), text and seven primitive kinds x S(2) hanging over every edge and corner of two small target boxes (one not at the origin), and the same kinds x stroke widths 2..=4 (lines to 5) placed just outside each side so that only the stroke reaches into the box: both target flavours compared inside the target's box", || bounded_cases(tier), check_bounded);
+            run.sweep_vec("bounded-target", "images (7 widths, 4 sizes, sub-images), text and seven primitive kinds x S(2) hanging over every edge and corner of three small target boxes (at the origin, across the y axis, and a window further from the origin than its own size), and the same kinds x stroke widths 2..=4 (lines to 5) placed just outside each side so that only the stroke reaches into the box: both target flavours compared inside the target's box", || bounded_cases(tier), check_bounded);
             run.sweep_vec("text-custom-fonts", "three synthetic fonts with character spacing 1, 2, 3 x 7 strings x 16 colour/decoration sets x 4 baselines x 3 alignments", || text_catalogue_named(&CUSTOM_FONTS, &CUSTOM_STRINGS, &[(1, 100)], (-3, 5)), check_text::<Rgb565>);
             run.sweep_vec("text-binary", "one font x strings x decorations in BinaryColor",
                 || text_catalogue(&[font_index("ascii::FONT_6X9")], &CATALOGUE_STRINGS, &[(1, 100)], (2, 2)), check_text::<BinaryColor>);
